@@ -25,11 +25,14 @@ import (
 	"sort"
 	"strconv"
 	"strings"
+	"runtime"
 	"sync"
+	"sync/atomic"
 	"syscall"
 	"time"
 
 	"golang.org/x/tools/go/analysis"
+	"honnef.co/go/tools/internal/verifx/vx"
 	"honnef.co/go/tools/unused"
 )
 
@@ -50,10 +53,11 @@ const (
 	vkAlias               // type al0 = T | int
 	vkGFunc               // func g0[T any](x T) { refs }
 	vkGType               // type h0[T any] struct { f T }
+	vkVarAnon             // var w0 struct { x int }    (only in C17's alphabet: rule 11.1, anonymous struct types)
 	vkNumKinds
 )
 
-var vgKindNames = [...]string{"F", "Mv", "Mp", "S", "I", "V", "C", "CG", "A", "GF", "GT"}
+var vgKindNames = [...]string{"F", "Mv", "Mp", "S", "I", "V", "C", "CG", "A", "GF", "GT", "VA"}
 
 type vgForm uint8
 
@@ -91,12 +95,13 @@ const (
 	vfCRead       // _ = c
 	vfGrpA        // _ = a0
 	vfGrpB        // _ = b0
+	vfAnonField   // _ = w0.x
 	vfNumForms
 )
 
 var vgFormNames = [...]string{"embed", "embedptr", "ftype", "iembed", "alias", "vtype", "arrlen", "cref",
 	"call", "fval", "clcall", "gcall", "ginst", "mcall", "mval", "mexpr", "decl", "keyed", "unkeyed",
-	"fread", "fwrite", "promcall", "conv", "iassign", "icall", "vread", "vwrite", "vincr", "cread", "grpa", "grpb"}
+	"fread", "fwrite", "promcall", "conv", "iassign", "icall", "vread", "vwrite", "vincr", "cread", "grpa", "grpb", "anonfield"}
 
 type vgObj struct {
 	K    vgKind `json:"k"`
@@ -188,6 +193,8 @@ func (s *vgSpec) name(i int) string {
 		lo, up = "g", "G"
 	case vkGType:
 		lo, up = "h", "H"
+	case vkVarAnon:
+		lo, up = "w", "W"
 	}
 	if o.Exp {
 		return up + strconv.Itoa(i)
@@ -454,6 +461,9 @@ func vgCandidateForms(s *vgSpec, i, j int, allowed *[vfNumForms]bool) []vgEdge {
 		case vkGroup:
 			add(vfGrpA, -1)
 			add(vfGrpB, -1)
+		case vkVarAnon:
+			add(vfVRead, -1)
+			add(vfAnonField, -1)
 		}
 	}
 	return r
@@ -544,11 +554,17 @@ func (s *vgSpec) valid() bool {
 			}
 		}
 	}
-	// initialization cycles: a variable with an initialising closure must not reach itself
+	return !s.initCycle(-1, -1)
+}
+
+// initCycle reports whether a variable with an initialising closure reaches itself through
+// references to functions, methods and variables; (xf, xt) is an additional reference (or -1).
+func (s *vgSpec) initCycle(xf, xt int) bool {
+	n := len(s.Objs)
 	dep := make([][]int, n)
 	for _, e := range s.Edges {
 		switch e.Form {
-		case vfCall, vfFuncVal, vfClosureCall, vfGCall, vfGInst, vfMCall, vfMVal, vfMExpr, vfVRead, vfVWrite, vfVIncr:
+		case vfCall, vfFuncVal, vfClosureCall, vfGCall, vfGInst, vfMCall, vfMVal, vfMExpr, vfVRead, vfVWrite, vfVIncr, vfAnonField:
 			dep[e.From] = append(dep[e.From], e.To)
 		case vfPromCall:
 			if sel := s.lookupMethod(e.To, "m"); sel.Found && sel.Meth >= 0 {
@@ -556,8 +572,15 @@ func (s *vgSpec) valid() bool {
 			}
 		}
 	}
+	hasInit := make([]bool, n)
 	for i, o := range s.Objs {
-		if o.K != vkVar || len(dep[i]) == 0 {
+		hasInit[i] = o.K == vkVar && len(dep[i]) > 0
+	}
+	if xf >= 0 {
+		dep[xf] = append(dep[xf], xt)
+	}
+	for i := range s.Objs {
+		if !hasInit[i] {
 			continue
 		}
 		seen := make([]bool, n)
@@ -567,7 +590,7 @@ func (s *vgSpec) valid() bool {
 			x := stack[len(stack)-1]
 			stack = stack[:len(stack)-1]
 			if x == i {
-				return false
+				return true
 			}
 			if seen[x] {
 				continue
@@ -576,7 +599,7 @@ func (s *vgSpec) valid() bool {
 			stack = append(stack, dep[x]...)
 		}
 	}
-	return true
+	return false
 }
 
 func vgHasCycle(adj [][]int) bool {
@@ -724,7 +747,8 @@ type vgBounds struct {
 	MaxN     int
 	MaxEdges []int // index n: maximal number of edges for packages of n objects (-1: no limit)
 	MaxExp   []int // index n: maximal number of exported objects
-	Forms    [vfNumForms]bool
+	Forms    [vfNumForms]bool // forms available to packages of up to CoreFrom-1 objects
+	CoreFrom int              // packages with at least this many objects use only the core forms (0: never)
 	Kinds    []vgKind
 }
 
@@ -735,9 +759,22 @@ func vgAllForms() (f [vfNumForms]bool) {
 	return
 }
 
+// vgCoreForms leaves out spellings that reach the same objects through the same kind of syntax
+// as a sibling form (a function value instead of a call, a method value/expression instead of a
+// method call, explicit instead of inferred instantiation, a field write instead of a read, v++
+// instead of v = e, the first instead of the second member of a constant group, a call inside an
+// immediately invoked closure).
+func vgCoreForms() (f [vfNumForms]bool) {
+	f = vgAllForms()
+	for _, x := range []vgForm{vfFuncVal, vfClosureCall, vfGInst, vfMVal, vfMExpr, vfFieldWrite, vfVIncr, vfGrpA} {
+		f[x] = false
+	}
+	return
+}
+
 func vgAllKinds() []vgKind {
 	var k []vgKind
-	for i := vgKind(0); i < vkNumKinds; i++ {
+	for i := vgKind(0); i <= vkGType; i++ {
 		k = append(k, i)
 	}
 	return k
@@ -826,11 +863,16 @@ func vgSkeletons(b *vgBounds, n int) []vgSkeleton {
 func vgExpand(b *vgBounds, sk vgSkeleton, k int, yield func(*vgSpec) bool) (inadmissible, noncanon int64) {
 	n := len(sk.Objs)
 	base := &vgSpec{Objs: sk.Objs}
+	forms := &b.Forms
+	if b.CoreFrom > 0 && n >= b.CoreFrom {
+		core := vgCoreForms()
+		forms = &core
+	}
 	type pair struct{ cands []vgEdge }
 	var pairs []pair
 	for i := 0; i < n; i++ {
 		for j := 0; j < n; j++ {
-			c := vgCandidateForms(base, i, j, &b.Forms)
+			c := vgCandidateForms(base, i, j, forms)
 			if len(c) > 0 {
 				pairs = append(pairs, pair{c})
 			}
@@ -999,6 +1041,8 @@ func (s *vgSpec) refStmt(e vgEdge) string {
 		return "_ = " + s.name(j)
 	case vfGrpB:
 		return "_ = " + s.grpB(j)
+	case vfAnonField:
+		return "_ = " + s.name(j) + ".x"
 	}
 	panic("refStmt: structural form")
 }
@@ -1079,6 +1123,8 @@ func (s *vgSpec) Render(extra map[int][]string) []vgDecl {
 				expr = s.constName(c) + " + " + expr
 			}
 			src = "const " + nm + " = " + expr
+		case vkVarAnon:
+			src = "var " + nm + " struct {\n\tx int\n}"
 		case vkGroup:
 			expr := "iota"
 			for _, c := range s.out(i, vfConstRef) {
@@ -1223,3 +1269,74 @@ func vgCPU() time.Duration {
 	}
 	return time.Duration(ru.Utime.Nano() + ru.Stime.Nano())
 }
+
+// vgRunTasks runs f over every spec of the bounded space with GOMAXPROCS workers, in size order.
+// It returns per-level completion so that a budget stop can be reported precisely.
+func vgRunTasks(res *vx.Result, b *vgBounds, f func(*vgSpec)) (specs, inadm, noncanon int64, completed string) {
+	tasks := vgTasks(b)
+	type lvl struct{ n, k int }
+	total := map[lvl]int{}
+	done := map[lvl]*atomic.Int64{}
+	var levels []lvl
+	for _, t := range tasks {
+		l := lvl{t.N, t.K}
+		if total[l] == 0 {
+			levels = append(levels, l)
+			done[l] = &atomic.Int64{}
+		}
+		total[l]++
+	}
+	var next atomic.Int64
+	var nSpecs, nInadm, nNoncanon atomic.Int64
+	var wg sync.WaitGroup
+	workers := runtime.GOMAXPROCS(0)
+	for w := 0; w < workers; w++ {
+		wg.Add(1)
+		go func() {
+			defer wg.Done()
+			for {
+				i := int(next.Add(1)) - 1
+				if i >= len(tasks) || res.Expired() {
+					return
+				}
+				t := tasks[i]
+				full := true
+				ia, nc := vgExpand(b, t.Sk, t.K, func(s *vgSpec) bool {
+					if res.Expired() {
+						full = false
+						return false
+					}
+					nSpecs.Add(1)
+					f(s)
+					return true
+				})
+				nInadm.Add(ia)
+				nNoncanon.Add(nc)
+				if full {
+					done[lvl{t.N, t.K}].Add(1)
+				}
+			}
+		}()
+	}
+	wg.Wait()
+	var parts []string
+	allDone := true
+	for _, l := range levels {
+		d := int(done[l].Load())
+		if d == total[l] {
+			continue
+		}
+		allDone = false
+		parts = append(parts, fmt.Sprintf("n=%d,e=%d:%d/%d", l.n, l.k, d, total[l]))
+	}
+	if allDone {
+		completed = "all levels complete"
+	} else {
+		if len(parts) > 12 {
+			parts = append(parts[:12], "...")
+		}
+		completed = "incomplete levels (skeleton tasks done/total): " + strings.Join(parts, " ")
+	}
+	return nSpecs.Load(), nInadm.Load(), nNoncanon.Load(), completed
+}
+
